@@ -8,9 +8,9 @@ META = dict(
         quick="real BacktestingDispatcher on asyncio; 2x2, 3x2 and 2x3 (sources x events) with symbolic microsecond "
               "timestamps (per-source non-decreasing: the premise), a derived source fed by a handler, duplicate "
               "subscriptions, one front-running and one trailing catch-all handler, a solver-chosen handler profile "
-              "(6 patterns of 0..2 suspension points and raising handlers), handlers as coroutine functions / "
+              "(7 patterns of 0..4 suspension points and raising handlers), handlers as coroutine functions / "
               "functools.partial objects / callable instances / bound methods looked up afresh for the duplicate "
-              "subscription (2x2), max_concurrent symbolic in 1..3",
+              "subscription / plain callables returning a Task (2x2), max_concurrent symbolic in 1..3",
         thorough="adds 3x3 without suspension/raise and 2x4 with profiles, max_concurrent 1..4"),
     stubs=["logging disabled (no log record is formatted on proxies)", "uuid.uuid4 deterministic"],
     assumptions=["every source yields events in non-decreasing time order (premise of the statement)",
@@ -28,7 +28,8 @@ def jobs(tier):
         Job("2x3 full", "scenario", dict(props=["C12"], nsrc=2, nev=3, max_mc=3), **big),
         Job("1x3 sniffers only", "scenario", dict(props=["C12"], nsrc=1, nev=3, max_mc=2, derived=False),
             validate_every=50, sample_every=100),
-        Job("2x2 full, handlers that are functools.partial objects / callable instances / bound methods", "scenario",
+        Job("2x2 full, handlers that are functools.partial objects / callable instances / bound methods / callables "
+            "returning a Task", "scenario",
             dict(props=["C12"], nsrc=2, nev=2, max_mc=3, handler_kinds=True), **big),
     ]
     if tier == "thorough":
